@@ -9,7 +9,7 @@ CFG = {
             "/024, /-1, empty, text) with Secure on/off, and 8-15 probes per case: client address strings (55% derived from an entry: inside its "
             "network or just outside by flipping the last prefix bit, in plain or v4-mapped spelling; random v4/v6; zoned; 29 malformed forms) "
             "x ports {0,1,1023,1024,65535} x calls (NFS NULL/GETATTR/ACCESS/LOOKUP/MKDIR, MOUNT MNT v1/v3, undecodable arguments, unknown "
-            "procedure/version/program) x flavours (AUTH_NONE, AUTH_SYS, 2). Each probe runs both filters on the strings and HandleCall on a "
+            "procedure/version/program) x flavours (AUTH_NONE, AUTH_SYS, 2); 6% of the calls are made while a policy update holds policyRWMu (drain). Each probe runs both filters on the strings and HandleCall on a "
             "server configured with the list, recording reply kind, backend calls and handle-table size. Corpus: every IPv4 and IPv6 prefix "
             "length with an inside and an outside client, v4-mapped CIDRs at lengths {0,1,64,80,95,96,97,104,120,128}, ::/0 against IPv4 "
             "clients, empty list, all malformed clients, all malformed entries. Non-trivial = a case with both denied and accepted probes",
@@ -24,6 +24,6 @@ CFG = {
                   "step order, MSG_DENIED, gate precedes dispatch - read off the source by astfacts).",
     "level_note": "Trusted: Coq kernel; Model/IpFilter.v (hand transcription of both filters and of net.IPNet.Contains, IP.Equal, IP.To4, "
                   "ParseCIDR's masking - tied by the differential run on both real filters and on HandleCall); tools/astfacts x_auth.go; the Go "
-                  "driver, specfs call log. Modelled, not verified: address string syntax; the drain path of HandleCall (answered before "
-                  "authentication, no dispatch - covered by C09_not_accepted_no_effect, exercised by C16's machinery, not by this driver).",
+                  "driver, specfs call log. Modelled, not verified: address string syntax; the reply contents of the drain path of HandleCall (answered before "
+                  "authentication without dispatch: C09_not_accepted_no_effect; the driver checks that such calls leave no backend call and no handle).",
 }
